@@ -25,7 +25,7 @@
    notes/C17-audit.md).  Division: every divisor is positive, so MinInt / -1 cannot occur.  *)
 From Coq Require Import ZArith List Bool Lia.
 Import ListNotations.
-From Mds Require Import Gen.SliceIdx Slice.SliceUtilModel Slice.SliceUtilSpec Slice.SliceUtilProofs.
+From Mds Require Import Gen.SliceIdx Slice.SliceUtilModel Slice.SliceUtilSpec Slice.SliceUtilProofs Slice.SliceUtilModel64.
 Local Open Scope Z_scope.
 
 Definition int64 (z : Z) : Prop := - 2 ^ 63 <= z < 2 ^ 63.
@@ -372,3 +372,41 @@ Example chunks_overflow_witness :
   let len := 2 ^ 63 - 1 in let n := len - 1 in
   Z.quot (wrap64 (wrap64 (len + n) - 1)) n = 0 /\ Z.min (wrap64 (0 + n)) len = n /\ Z.min (wrap64 (n + n)) len = -4.
 Proof. vm_compute. repeat split; reflexivity. Qed.
+
+(* ---- known finding F13: the length-only models of SliceUtilModel64.v ---- *)
+Lemma w64_is_wrap64 z : w64 z = wrap64 z. Proof. reflexivity. Qed.
+
+(* on views the length-only Chunks with the identity for w and the model's fuel IS the model's
+   Chunks, and with w64 it is chunks64 *)
+Lemma chunks_loopz_id : forall fuel v n i out, chunks_loopz wid fuel v n i out = chunks_loop fuel v n i out.
+Proof.
+  induction fuel as [|f IH]; intros v n i out; [reflexivity|]. cbn [chunks_loopz chunks_loop]. unfold wid.
+  destruct (ch_loop i (vlen v)); [|reflexivity]. change (Z.min (i + n) (vlen v)) with (ch_end i n (vlen v)).
+  destruct (slice3 v _ _ _); cbn [bind]; try reflexivity; apply IH.
+Qed.
+
+Lemma chunksz_id v n : chunksz wid (S (Z.to_nat (vlen v))) v n = chunks v n.
+Proof. unfold chunksz, chunks, wid. rewrite chunks_loopz_id. reflexivity. Qed.
+
+Lemma chunks_loopz_64 : forall fuel v n i out, chunks_loopz w64 fuel v n i out = chunks_loop64 fuel v n i out.
+Proof.
+  induction fuel as [|f IH]; intros v n i out; [reflexivity|]. cbn [chunks_loopz chunks_loop64].
+  destruct (ch_loop i (vlen v)); [|reflexivity].
+  destruct (slice3 v _ _ _); cbn [bind]; try reflexivity; apply IH.
+Qed.
+
+Lemma chunksz_64 v n : chunksz w64 (S (Z.to_nat (vlen v))) v n = chunks64 v n.
+Proof. unfold chunksz, chunks64. rewrite chunks_loopz_64. reflexivity. Qed.
+
+(* the witnesses of KNOWN_FINDINGS F13, len = MaxInt, k = n = MaxInt - 1: the 64-bit code panics
+   at its second step; the unbounded code does not (Rotate: still running after 64 steps, and
+   C17_rotate says it never panics; Chunks: the two chunks the documentation promises) *)
+Example F13_rotate_witness :
+  rotatez w64 64 (2 ^ 63 - 1) (2 ^ 63 - 2) = Panic PRtIndex /\ rotatez wid 64 (2 ^ 63 - 1) (2 ^ 63 - 2) = OutOfFuel.
+Proof. split; vm_compute; reflexivity. Qed.
+
+Example F13_chunks_witness :
+  let len := 2 ^ 63 - 1 in
+  chunksz w64 64 (mkView 0 len len) (len - 1) = Panic PRtSlice /\
+  chunksz wid 64 (mkView 0 len len) (len - 1) = Ok [mkView 0 (len - 1) (len - 1); mkView (len - 1) 1 1].
+Proof. split; vm_compute; reflexivity. Qed.
